@@ -64,3 +64,67 @@ func (u *Unit) instantiateAt(t Term) {
 		u.lines = append(u.lines, "(assert "+implies(q.guard, inst).S+")")
 	}
 }
+
+// expandExists rewrites every (exists ((k Int)) BODY) in a formula to
+// (or (exists ((k Int)) BODY) BODY[k:=t1] ... BODY[k:=tn]) for the index terms the program has
+// used so far. The two formulas are equivalent (an instance implies the existential), in goals and
+// in assumptions alike; the instances merely hand the solvers the witnesses they rarely find
+// themselves when the index sits under slice-offset arithmetic.
+func (u *Unit) expandExists(f Term) Term {
+	if len(u.indexTerms) == 0 || !strings.Contains(f.S, "(exists ((") {
+		return f
+	}
+	s := f.S
+	var out strings.Builder
+	for {
+		i := strings.Index(s, "(exists ((")
+		if i < 0 {
+			out.WriteString(s)
+			break
+		}
+		// find the end of this s-expression
+		depth, j := 0, i
+		for ; j < len(s); j++ {
+			if s[j] == '(' {
+				depth++
+			} else if s[j] == ')' {
+				depth--
+				if depth == 0 {
+					break
+				}
+			}
+		}
+		ex := s[i : j+1]
+		head := ex[len("(exists (("):]
+		k := strings.Index(head, " Int)) ")
+		if k < 0 || strings.ContainsAny(head[:k], "() ") {
+			out.WriteString(s[:j+1])
+			s = s[j+1:]
+			continue
+		}
+		v := head[:k]
+		body := head[k+len(" Int)) ") : len(head)-1]
+		out.WriteString(s[:i])
+		out.WriteString("(or " + ex)
+		n := 0
+		for t := len(u.indexTerms) - 1; t >= 0 && n < 6; t-- {
+			out.WriteString(" " + substToken(body, v, u.indexTerms[t]))
+			n++
+		}
+		out.WriteString(")")
+		s = s[j+1:]
+	}
+	return Term{out.String(), f.Sort}
+}
+
+func (u *Unit) noteIndexTerm(t Term) {
+	if t.Sort != "Int" || isIntLit(t.S) {
+		return
+	}
+	for _, x := range u.indexTerms {
+		if x == t.S {
+			return
+		}
+	}
+	u.indexTerms = append(u.indexTerms, t.S)
+}
